@@ -8,7 +8,7 @@ __attribute__((noinline)) int w_tap_main(int argc, char* const* argv) { return t
 // C06 sighash obligations: replace the fields of the parsed transactions that the BIP341 digest signs over by the bytes of a buffer
 // (the engine fills it with symbolic bytes; it is called by the engine right before the return of Instance::parse_input_transaction in tap's main()).
 extern "C" {
-unsigned char verif_tap_sym[32];
+unsigned char verif_tap_sym[40];
 __attribute__((noinline)) void w_tap_symbolize(Instance* inst) {
     CMutableTransaction m(*inst->tx);
     memcpy(&m.nVersion, verif_tap_sym, 4); memcpy(&m.nLockTime, verif_tap_sym + 4, 4);
@@ -16,7 +16,7 @@ __attribute__((noinline)) void w_tap_symbolize(Instance* inst) {
     for (size_t i = 0; i < m.vout.size(); ++i) memcpy(&m.vout[i].nValue, verif_tap_sym + 12, 8);
     inst->tx = MakeTransactionRef(m);
     CMutableTransaction f(*inst->txin);
-    for (size_t i = 0; i < f.vout.size(); ++i) memcpy(&f.vout[i].nValue, verif_tap_sym + 20, 8);
+    for (size_t i = 0; i < f.vout.size(); ++i) memcpy(&f.vout[i].nValue, verif_tap_sym + ((int64_t)i == inst->txin_vout_index ? 20 : 28), 8);          // the spent output and the others get different amounts
     inst->txin = MakeTransactionRef(f);
 }
 }
